@@ -1,4 +1,5 @@
 import OdcGeo.Model.C05
+import OdcGeo.Drv.C05Opts
 namespace OdcGeo.C05.Drv
 open OdcGeo OdcGeo.IO OdcGeo.C05
 
@@ -162,6 +163,6 @@ def run (args : List String) : Option String :=
     let sy ← parseNat? sy; let sx ← parseNat? sx; let py ← parseNat? py; let px ← parseNat? px
     let ((a, b), (c, d)) := padToCog ⟨sy, sx⟩ ⟨py, px⟩
     pure s!"{a} {b} {c} {d}"
-  | _ => none
+  | args => OdcGeo.C05.OptsDrv.run args
 
 end OdcGeo.C05.Drv
